@@ -241,6 +241,12 @@ def matchPat (pat path : Str) : Except Unit (Option (List (Option Str) × List (
     | none => .ok none
     | some caps => .ok (some (Regex.groupsOf n caps, Regex.groupNames re))
 
+/-- `match.group(name)`: the capture of the group with that name (`None` if it did not take part) -/
+def groupByName (names : List (String × Nat)) (groups : List (Option Str)) (name : Str) : Option Str :=
+  match names.find? (fun n => n.1.toList == name) with
+  | some (_, i) => (groups[i - 1]?).join
+  | none => none
+
 /-- the `for ruri in self.__rhandlers` loop -/
 def selectRegex (bit : Nat) (path : Str) : List (Str × List (Nat × RH)) → Except Unit (Option Sel)
   | [] => .ok none
@@ -256,7 +262,7 @@ def selectRegex (bit : Nat) (path : Str) : List (Str × List (Nat × RH)) → Ex
         if rh.convs.isEmpty then
           .ok (some (.pattern rh.fn (groups.map fun g => ⟨.str, g⟩) (names.map fun n => n.1.toList) rule))
         else
-          .ok (some (.pattern rh.fn ((rh.convs.zip groups).map fun (cv, g) => ⟨cv.2, g⟩)
+          .ok (some (.pattern rh.fn (rh.convs.map fun cv => ⟨cv.2, groupByName names groups cv.1⟩)
                       (rh.convs.map (·.1)) rule))
 
 def selectDefault (r : Reg) (bit : Nat) : Sel :=
